@@ -926,7 +926,7 @@ func show2(v any) string { b, _ := json.Marshal(v); return string(b) }
 func init() { vr.Register("export", checkExport) }
 
 func TestExport(t *testing.T) {
-	vr.Prop(t, "export", vr.N(24000, 400000), genExport, metaExport, checkExport)
+	vr.Prop(t, "export", vr.N(24000, 800000), genExport, metaExport, checkExport)
 }
 
 // ---------------------------------------------------------------------------
@@ -1159,7 +1159,7 @@ func metaVector(c VectorCase) vr.Meta {
 func init() { vr.Register("vectordb", checkVector) }
 
 func TestVectorDB(t *testing.T) {
-	vr.Prop(t, "vectordb", vr.N(8000, 120000), genVector, metaVector, checkVector)
+	vr.Prop(t, "vectordb", vr.N(8000, 200000), genVector, metaVector, checkVector)
 }
 
 // ---------------------------------------------------------------------------
@@ -1451,7 +1451,7 @@ func metaFilter(c FilterCase) vr.Meta {
 func init() { vr.Register("filter", checkFilter) }
 
 func TestFilter(t *testing.T) {
-	vr.Prop(t, "filter", vr.N(12000, 200000), genFilter, metaFilter, checkFilter)
+	vr.Prop(t, "filter", vr.N(12000, 400000), genFilter, metaFilter, checkFilter)
 }
 
 var _ = io.EOF
